@@ -35,7 +35,8 @@ def run(ctx, report):
     report.section("WebVTT tags", webvtt_tags, ctx, report, folder)
     report.section("breaks", breaks, ctx, report)
     from . import reader_doc_fold, srt_doc_fold, dfxp_reader_fold
-    report.section("generated DFXP documents", dfxp_reader_fold.run, ctx, report, {"text": ("R-DOC-TEXT", "1")})
+    report.section("generated DFXP documents", dfxp_reader_fold.run, ctx, report, {
+        "cues": ("R-DOC-CUES", "1"), "text": ("R-DOC-TEXT", "1")})
     from . import sami_reader_fold
     report.section("generated SAMI documents", sami_reader_fold.run, ctx, report, {
         "cues": ("R-DOC-CUES", "1"), "text": ("R-DOC-TEXT", "1")})
